@@ -732,7 +732,7 @@ def build(ch: Choices, pool: Pool, kind: str) -> Built:
     if kind == "Psbt":
         version = ch.pick([0, 2], "psbt.version")
         raw = psbtmap.assemble(psbt_maps(ch, pool, version, tags))
-        return Built(codec, raw, psbt_marks(raw), tags=tags, extra={"version": version})
+        return Built(codec, raw, psbt_marks(raw), tags=tags)
     prev = (ch.nbytes(32, "psbt.txid"), uint(ch, 4, "psbt.vout"), uint(ch, 4, "psbt.seq"))
     pairs = psbt_input_pairs(ch, pool, 2, prev, tags, 1 + ch.draw(2, "psbt.lockkind")) if kind == "PsbtIn" else psbt_output_pairs(ch, pool, 2, (ch.draw(MAX_MONEY + 1, "psbt.amount"), script_pub_key(ch) or b"\x51"), tags)
     raw = psbtmap.assemble([pairs], magic=False)
